@@ -274,9 +274,14 @@ impl Qcow2Header {
             return Err("Not a qcow2 file".into());
         }
 
-        if header.version < 2 {
+        if header.version < 2 || header.version > 3 {
             let v = header.version;
             return Err(format!("qcow2 v{v} is not supported").into());
+        }
+
+        if header.crypt_method != 0 {
+            let m = header.crypt_method;
+            return Err(format!("qcow2 encryption (crypt_method {m}) is not supported").into());
         }
 
         // A version 2 header ends after `snapshots_offset` (72 bytes): what
@@ -289,6 +294,11 @@ impl Qcow2Header {
             header.compatible_features = 0;
             header.autoclear_features = 0;
             header.compression_type = 0;
+        }
+
+        let refcount_order = header.refcount_order;
+        if refcount_order > 6 {
+            return Err(format!("qcow2 refcount_order {refcount_order} is invalid").into());
         }
 
         let cluster_bits = header.cluster_bits;
